@@ -313,6 +313,17 @@ func runC11(c *Ctx) {
 	c.Rule("R8", "request state is per request: handlers do not write to variables of their factory", 10)
 	handlerStatePerRequest(c, "R8")
 	errorResponseReturns(c, "R1")
+	proposedCommandWellFormed(c, "R3")
+	c.Rule("R9", "request-path goroutines signal their WaitGroup on every exit; the consistency range guard holds on an empty log", 3)
+	waitGroupDoneOnEveryExit(c, "R9", []string{"consensus", "balloon", "api/apihttp", "api/mgmthttp"})
+	sub3 := newCtx(p, c.Prop, c.Tier)
+	runC03(sub3)
+	for _, in := range sub3.Instances {
+		if in.Rule == c.Prop+".R3" {
+			in.Rule = c.Prop + ".R9"
+			c.Instances = append(c.Instances, in)
+		}
+	}
 	checkUnlocks(c, "R5", []string{"balloon", "balloon/hyper", "consensus", "api/apihttp", "api/mgmthttp"})
 	hyperLeafListDiscipline(c, "R6")
 	lruDiscipline(c, "R7")
